@@ -1,0 +1,36 @@
+//go:build verif
+
+package deps
+
+import (
+	"mltwist/pkg/model"
+	"sort"
+)
+
+// VerifEdges exposes the dependency edges of a basic block to the verification
+// harness. Every edge is a pair (original address of the instruction which has
+// to stay first, original address of the instruction which has to stay second).
+// The first list is collected from the depsFwd sets, the second one from the
+// depsBack sets; both are sorted.
+func VerifEdges(b Block) (fwd [][2]model.Addr, back [][2]model.Addr) {
+	for _, ins := range b.seq {
+		for d := range ins.depsFwd {
+			fwd = append(fwd, [2]model.Addr{ins.origAddr, d.origAddr})
+		}
+		for d := range ins.depsBack {
+			back = append(back, [2]model.Addr{d.origAddr, ins.origAddr})
+		}
+	}
+
+	less := func(l [][2]model.Addr) func(i, j int) bool {
+		return func(i, j int) bool {
+			if l[i][0] != l[j][0] {
+				return l[i][0] < l[j][0]
+			}
+			return l[i][1] < l[j][1]
+		}
+	}
+	sort.Slice(fwd, less(fwd))
+	sort.Slice(back, less(back))
+	return fwd, back
+}
